@@ -14,7 +14,7 @@ META = {
         "specialised on every distinct count designator of the tables (ints, names, '+n' names, +1 for the layer counter; index push/set/pop); D7 optional groups; "
         "D8 dispatch on the shape of the definition value; D9 derived counts (population counts, harmonic-coefficient polynomial identity); D10 nothing else reads the payload; "
         "D11 no other public attribute; T-rules: the tables are well-typed for that schema (C10-D1..D4). Floating-point rounding of val*resolution and UTF-8 "
-        "interpretation of text units are not decided; whether table widths are the standard's is C10."
+        "interpretation of text units are not decided; the layouts' agreement with the standard (C10-D5 bit lengths, C10-D6 siblings) is a shared obligation."
     ),
     "trusted": ["CPython ast parser", "sa/symeval.py partial evaluator", "sa/domains.py", "sa/consteval.py"],
 }
@@ -36,4 +36,8 @@ def run(eng, ctx):
     TR.fields_defined(eng, ctx, "C10.D2")
     TR.scoping(eng, ctx, "C10.D3")
     TR.dispatch(eng, ctx, "C10.D4")
+    # "the value its bits encode": a definition that drops, adds or swaps a field makes every later field of a real message decode from
+    # the wrong bits, so the layout's agreement with the standard's bit lengths and sibling relations is a shared obligation
+    TR.lengths(eng, ctx, "C10.D5")
+    TR.siblings(eng, ctx, "C10.D6")
     ctx.instance("definitions typed", sum(1 for _ in eng.tables.definitions()), 152)
